@@ -650,3 +650,75 @@ pub fn ref_read_name_contents(c: &[u8], start: usize, out: &mut [u8; 32], strict
         }
     }
 }
+
+/// Verdict of the bounded reference reader.
+#[derive(Clone, Copy, PartialEq, Eq)]
+pub enum RefName {
+    /// well-formed: (flat length incl. root, position behind the name, pointer followed after a label)
+    Name(usize, usize, bool),
+    /// malformed by RFC 1035 (bad label type, short input, pointer not pointing backwards)
+    Malformed,
+    /// not decided within the label / hop budget (the harness assumes this away)
+    Budget,
+}
+
+/// RFC 1035 4.1.4 name reader with explicit budgets; flat form into `out`.
+pub fn ref_read_name_b(msg: &[u8], pos: usize, out: &mut [u8; 32], labels: usize, hops: usize) -> RefName {
+    let mut p = pos;
+    let mut o = 0usize;
+    let mut after: Option<usize> = None;
+    let mut nl = 0;
+    let mut nh = 0;
+    let mut compressed = false;
+    loop {
+        if p >= msg.len() {
+            return RefName::Malformed;
+        }
+        let b = msg[p] as usize;
+        if b & 0xC0 == 0xC0 {
+            if p + 1 >= msg.len() {
+                return RefName::Malformed;
+            }
+            let t = ((b & 0x3F) << 8) | msg[p + 1] as usize;
+            if after.is_none() {
+                after = Some(p + 2);
+            }
+            if t >= p {
+                return RefName::Malformed;
+            }
+            if nh >= hops {
+                return RefName::Budget;
+            }
+            if o > 0 {
+                compressed = true;
+            }
+            p = t;
+            nh += 1;
+            continue;
+        }
+        if b > 63 {
+            return RefName::Malformed;
+        }
+        if p + 1 + b > msg.len() {
+            return RefName::Malformed;
+        }
+        if b != 0 && nl >= labels {
+            return RefName::Budget;
+        }
+        if o + 1 + b > 32 {
+            return RefName::Budget;
+        }
+        out[o] = b as u8;
+        let mut i = 0;
+        while i < b {
+            out[o + 1 + i] = msg[p + 1 + i];
+            i += 1;
+        }
+        o += 1 + b;
+        p += 1 + b;
+        if b == 0 {
+            return RefName::Name(o, after.unwrap_or(p), compressed);
+        }
+        nl += 1;
+    }
+}
